@@ -197,7 +197,7 @@ def run_model(prop, sx_cases, pool):
 
 def spot_check(prop, sx_cases, model_lines, rng, n, modfile):
     """re-evaluate a sample inside Coq (vm_compute) and require equality with the extracted code"""
-    idx = [i for i in range(len(sx_cases)) if not model_lines[i].startswith("!error")]
+    idx = [i for i in range(len(sx_cases)) if not model_lines[i].startswith("!")]
     if not idx or n <= 0:
         return {"n": 0, "ok": True}
     idx = rng.sample(idx, min(n, len(idx)))
@@ -263,6 +263,8 @@ def _default_compare(case, impl, model):
 
 
 def evaluate(mod, cases, pool):
+    if hasattr(mod, "custom_evaluate"):
+        return mod.custom_evaluate(cases, pool)
     sxs = [mod.encode(c) for c in cases]
     lines = run_model(mod.PROP, sxs, pool)
     impl = run_impl_all(mod, cases, pool)
@@ -358,7 +360,7 @@ def main(mod, argv=None):
                 return 1
             return 0
 
-        known = load_known(prop)
+        known = mod.known(ctx) if hasattr(mod, "known") else load_known(prop)
         corpus = [dict(k["witness"], _corpus=k.get("key", "")) for k in known if k.get("witness") is not None]
         cdir = os.path.join(VERIF, "corpus", prop)
         if os.path.isdir(cdir):
@@ -367,7 +369,7 @@ def main(mod, argv=None):
                     corpus.append(dict(json.load(open(os.path.join(cdir, f)))["case"], _corpus=f))
         cases = corpus + list(mod.gen_cases(tier, rng))
         sxs, lines, impl, model = ([], [], [], [])
-        if proofs.get("skipped") or os.path.exists(os.path.join(BIN, prop.lower())):
+        if proofs.get("skipped") or hasattr(mod, "custom_evaluate") or os.path.exists(os.path.join(BIN, prop.lower())):
             sxs, lines, impl, model = evaluate(mod, cases, pool)
         else:
             cases = []
